@@ -13,7 +13,14 @@
    ... exactly once, with the arguments given, and            joined_call_ran_exactly_once,
      join()/~Future/conversion return only after that            run_uses_given_arguments, starts_unique
      execution has completed (EvComplete before EvJoinRet)
-   the converted result is the function's return value       result_is_return_value
+   the converted result is the function's return value       result_is_return_value (conversion that joins),
+                                                                result_after_join (conversion of a future that
+                                                                is not joinable, `f.join(); x = f;`: the return
+                                                                value of the LATEST start)
+   the DESTRUCTOR returns only after the worker is done      destructor_waits_for_worker (code after
+     with the Future (its Signal is freed with it): no          fixes/C10/04, c_sigfix = true);
+     worker holds the call record or stands inside the          destructor_waits_refuted_original: FALSE for
+     completion handshake when ~Future returns                  Signal::set() as it was (unlock, then broadcast)
    after join: isAborted only if abort() was requested        aborted_only_if_requested
      since the start, isFinished otherwise
    MPMC ring: ticket/sequence invariant; no slot handed      ring_ticket_invariant, ring_no_two_consumers,
@@ -29,7 +36,7 @@
    worker-pool sizing (grow/idle/shrink), lazy pool creation, full-queue back-pressure: part of the
    model, i.e. covered by the quantifier "every schedule" of the theorems above. *)
 From Coq Require Import ZArith List Bool Lia Arith.
-From Future Require Import FutureModel FutureRingProofs FutureProofs FutureStep FutureTheorems FutureLiveness FutureExamples.
+From Future Require Import FutureModel FutureRingProofs FutureProofs FutureStep FutureTheorems FutureDestroy FutureLiveness FutureNested FutureExamples.
 Import ListNotations.
 Local Open Scope Z_scope.
 
@@ -71,6 +78,25 @@ Theorem result_is_return_value : forall cfg own, wf_cfg cfg own ->
     exists a wk, started older f n a wk /\ v = Some (c_fn cfg a).
 Proof. exact FutureTheorems.result_is_return_value. Qed.
 Print Assumptions result_is_return_value.
+
+Theorem result_after_join : forall cfg own sched, wf_cfg cfg own ->
+  forall newer c i f v older,
+    snd (exec cfg sched) = newer ++ EvObs c i (OGet f None v) :: older ->
+    forall n a, latest_start older f n a -> v = Some (c_fn cfg a).
+Proof. exact result_after_join_lemma. Qed.
+Print Assumptions result_after_join.
+
+Theorem destructor_waits_for_worker : forall cfg own sched, wf_cfg cfg own -> c_sigfix cfg = true ->
+  forall c f clean, In (EvDestroy c f clean) (snd (exec cfg sched)) -> clean = true.
+Proof. exact destructor_waits_for_worker_lemma. Qed.
+Print Assumptions destructor_waits_for_worker.
+
+Theorem destructor_waits_refuted_original :
+  exists cfg own sched,
+    wf_cfg cfg own /\ c_fixed cfg = true /\ c_sigfix cfg = false /\
+    exists c f, In (EvDestroy c f false) (snd (exec cfg sched)).
+Proof. exact destructor_waits_refuted_original_lemma. Qed.
+Print Assumptions destructor_waits_refuted_original.
 
 Theorem aborted_only_if_requested : forall cfg own, wf_cfg cfg own ->
   forall sched f,
@@ -130,6 +156,16 @@ Theorem join_liveness_refuted_original :
 Proof. exact join_liveness_refuted_original_lemma. Qed.
 Print Assumptions join_liveness_refuted_original.
 
+Theorem join_liveness_refuted_nested_start :
+  exists cfg sched,
+    c_fixed cfg = true /\ c_sigfix cfg = true /\ c_nested cfg = true /\ 0 < c_cap cfg /\
+    terminating_scripts cfg = true /\
+    let s := fst (exec cfg sched) in
+    client_unfinished cfg s = true /\ all_blocked s = true /\
+    forall more tr, exec_from cfg s tr more = (s, tr).
+Proof. exact join_liveness_refuted_nested_start_lemma. Qed.
+Print Assumptions join_liveness_refuted_nested_start.
+
 Theorem deadlock_is_permanent : forall cfg s tr sched,
   all_blocked s = true -> exec_from cfg s tr sched = (s, tr).
 Proof. exact FutureLiveness.deadlock_is_permanent. Qed.
@@ -162,8 +198,23 @@ Example ex_ring_states :
           (seq 0 (length ex_sched)) = true.
 Proof. vm_compute. split; reflexivity. Qed.
 
+(* `f.join(); x = f;` twice on a re-used Future: the second conversion yields the second call's value *)
+Example ex_result_after_join :
+  existsb (fun e => match e with EvObs _ 2%nat (OGet 0%nat None (Some 38)) => true | _ => false end) (snd (exec rj_cfg rj_sched)) = true /\
+  existsb (fun e => match e with EvObs _ 5%nat (OGet 0%nat None (Some 45)) => true | _ => false end) (snd (exec rj_cfg rj_sched)) = true.
+Proof. exact rj_example. Qed.
+
+(* the schedule that shows the late broadcast of the old Signal::set() ends, on the repaired code, with a clean destroy *)
+Example ex_destroy_clean :
+  existsb is_dirty_destroy (snd (exec (ds_cfg true) ds_sched)) = false /\
+  existsb (fun e => match e with EvDestroy _ _ true => true | _ => false end) (snd (exec (ds_cfg true) ds_sched)) = true.
+Proof. exact ds_fixed_clean. Qed.
+
 (* the deadlock witness of the old handshake is a real deadlock there, and is none on the code as it is now *)
 Example witness_deadlocks_original : deadlocked (dl_cfg false) (fst (exec (dl_cfg false) dl_sched)) = true.
 Proof. exact dl_deadlock. Qed.
+(* the open finding: three workers in the back-pressure loop of ThreadPool::run (inside start()), the client in join() *)
+Example witness_nested_start : deadlocked ns_cfg (fst (exec ns_cfg ns_sched)) = true.
+Proof. exact ns_deadlock. Qed.
 Example witness_survives_fix : deadlocked (dl_cfg true) (fst (exec (dl_cfg true) dl_sched)) = false.
 Proof. exact dl_fixed_alive. Qed.
